@@ -117,7 +117,9 @@ func TestC06(t *testing.T) {
 		shuffled := rapid.Permutation(refs).Draw(t, "callerOrder")
 		c := &evalCase{Events: ev, Ctx: "/", Vars: []varBinding{{Local: "v", T: "nodes", Nodes: shuffled[:rapid.IntRange(1, n).Draw(t, "varSize")]},
 			{Local: "b", T: "num", Num: fmtFloat(genFloat(t, "b"))}}}
-		kinds := []string{"reverse-axis path", "caller-ordered variable", "forward path", "number", "ancestor path"}
+		c.Vars = append(c.Vars, varBinding{Local: "t", T: "bool", Bool: rapid.Bool().Draw(t, "boolVar")},
+			varBinding{Local: "s", T: "str", Str: c06Texts[rapid.IntRange(0, len(c06Texts)-1).Draw(t, "strVar")]})
+		kinds := []string{"reverse-axis path", "caller-ordered variable", "forward path", "number", "ancestor path", "boolean function", "boolean variable", "comparison", "string variable", "string literal"}
 		operand := func(label string) (*xast.Expr, string) {
 			k := rapid.IntRange(0, len(kinds)-1).Draw(t, label)
 			switch k {
@@ -129,6 +131,16 @@ func TestC06(t *testing.T) {
 				return xast.Path(true, xast.S("child", xast.Name("", "r")), xast.S("child", xast.Name("", "a"))), kinds[k]
 			case 3:
 				return xast.Var("b"), kinds[k]
+			case 5:
+				return xast.Call([]string{"true", "false"}[rapid.IntRange(0, 1).Draw(t, label+"Fn")]), kinds[k]
+			case 6:
+				return xast.Var("t"), kinds[k]
+			case 7:
+				return xast.Bin("=", xast.Num("1"), xast.Num([]string{"1", "2"}[rapid.IntRange(0, 1).Draw(t, label+"Cmp")])), kinds[k]
+			case 8:
+				return xast.Var("s"), kinds[k]
+			case 9:
+				return xast.Str([]string{"2", " 3 ", "x", "", "1.5", "-1"}[rapid.IntRange(0, 5).Draw(t, label+"Lit")]), kinds[k]
 			}
 			return xast.Path(true, xast.DS("child", xast.NodeT()), xast.S("ancestor-or-self", xast.Name("", "a"))), kinds[k]
 		}
@@ -146,7 +158,7 @@ func TestC06(t *testing.T) {
 		c.Text = xast.Render(e, xast.RapidChooser{T: t}, xast.Style{WS: rapid.Bool().Draw(t, "ws")})
 		st.Eval(1)
 		st.Class("node-set operand")
-		if strings.Contains(cls, "reverse") || strings.Contains(cls, "caller") || strings.Contains(cls, "ancestor") {
+		if strings.Contains(cls, "reverse") || strings.Contains(cls, "caller") || strings.Contains(cls, "ancestor") || strings.Contains(cls, "boolean") || strings.Contains(cls, "comparison") || strings.Contains(cls, "string") {
 			st.NonTrivial(cls + "|" + fmt.Sprint(ev, c.Vars[0].Nodes, c.Vars[1].Num))
 			st.Sample(cls+c.Text, map[string]any{"expr": c.Text, "events": eventStrings(ev), "v": c.Vars[0].Nodes, "b": c.Vars[1].Num})
 		}
